@@ -80,7 +80,7 @@ theorem argminFrom_spec (xs : List α) : ∀ (best : α) (bi i : Nat), ∃ v,
     intro best bi i
     by_cases hlt : x < best
     · obtain ⟨v, h1, h2, h3⟩ := ih x i (i+1)
-      have e : argminFrom best bi i (x :: xs) = argminFrom x i (i+1) xs := by simp [argminFrom, hlt]
+      have e : argminFrom best bi i (x :: xs) = argminFrom x i (i+1) xs := by simp [argminFrom, isNaN, hlt]
       rw [e]
       refine ⟨v, Or.inr ?_, le_trans h2 (le_of_lt hlt), ?_⟩
       · rcases h1 with ⟨h, hv⟩ | ⟨h, hv⟩
@@ -93,7 +93,7 @@ theorem argminFrom_spec (xs : List α) : ∀ (best : α) (bi i : Nat), ∃ v,
         · subst h; exact h2
         · exact h3 y h
     · obtain ⟨v, h1, h2, h3⟩ := ih best bi (i+1)
-      have e : argminFrom best bi i (x :: xs) = argminFrom best bi (i+1) xs := by simp [argminFrom, hlt]
+      have e : argminFrom best bi i (x :: xs) = argminFrom best bi (i+1) xs := by simp [argminFrom, isNaN, hlt]
       rw [e]
       refine ⟨v, ?_, h2, ?_⟩
       · rcases h1 with ⟨h, hv⟩ | ⟨h, hv⟩
@@ -106,14 +106,14 @@ theorem argminFrom_spec (xs : List α) : ∀ (best : α) (bi i : Nat), ∃ v,
         · subst h; exact le_trans h2 (not_lt.mp hlt)
         · exact h3 y h
 
-/-- `numpy.argmin` of a non-empty list returns a valid index of a minimal element -/
+/-- `numpy.argmin` of a non-empty list returns a valid index of a minimal element (in a linear order nothing is a NaN) -/
 theorem argmin?_spec (xs : List α) (hne : xs ≠ []) :
     ∃ r v, argmin? xs = some r ∧ xs[r]? = some v ∧ ∀ x ∈ xs, v ≤ x := by
   cases xs with
   | nil => exact absurd rfl hne
   | cons x xs =>
     obtain ⟨v, h1, h2, h3⟩ := argminFrom_spec xs x 0 1
-    refine ⟨argminFrom x 0 1 xs, v, rfl, ?_, ?_⟩
+    refine ⟨argminFrom x 0 1 xs, v, by simp [argmin?, isNaN], ?_, ?_⟩
     · rcases h1 with ⟨h, hv⟩ | ⟨h, hv⟩
       · rw [h]; subst hv; simp
       · have : argminFrom x 0 1 xs = (argminFrom x 0 1 xs - 1) + 1 := by omega
